@@ -30,8 +30,8 @@ C.reexec_under_impl_python()
 
 CID = "C10"
 AREA = "rset"
-VO = ["props/C10.vo", "rset/RSetModel.vo", "rset/RSetSpec.vo", "rset/RSetHist.vo", "rset/RSetThm.vo", "rset/RSetHistThm.vo"]
-E_MODEL_FIRST, E_MODEL_LAST, E_SPEC, E_TAGGED, E_HIST_FIRST, E_HIST_LAST, E_HIST_SPEC = 0, 1, 2, 3, 10, 11, 12
+VO = ["props/C10.vo", "rset/RSetModel.vo", "rset/RSetSpec.vo", "rset/RSetHist.vo", "rset/RSetThm.vo", "rset/RSetHistThm.vo", "rset/RSetLit.vo", "rset/RSetLitThm.vo", "rset/RSetHeapq.vo", "rset/RSetHeapqThm.vo"]
+E_MODEL_FIRST, E_MODEL_LAST, E_SPEC, E_TAGGED, E_LITERAL, E_MODEL_PY, E_HIST_FIRST, E_HIST_LAST, E_HIST_SPEC, E_HIST_PY = 0, 1, 2, 3, 4, 5, 10, 11, 12, 13
 
 BASE = dt.datetime(2000, 1, 1)
 UTC = dt.timezone.utc
@@ -42,9 +42,16 @@ FREQS = {"DAILY": 3, "HOURLY": 4, "MINUTELY": 5, "WEEKLY": 2, "MONTHLY": 1, "SEC
 # instants and members
 
 
+AWARE_ZONES = {1: UTC, 2: dt.timezone(dt.timedelta(hours=1)), 3: dt.timezone(dt.timedelta(hours=-5, minutes=-30))}
+
+
 def to_dt(z, aware=False):
+    """aware: False/0 naive; True/1 UTC; 2, 3: the same instant written in another fixed offset"""
     d = BASE + dt.timedelta(seconds=z)
-    return d.replace(tzinfo=UTC) if aware else d
+    if not aware:
+        return d
+    tz = AWARE_ZONES[int(aware)]
+    return d.replace(tzinfo=UTC).astimezone(tz)
 
 
 def to_z(d):
@@ -54,11 +61,25 @@ def to_z(d):
     return delta.days * 86400 + delta.seconds
 
 
-def build_member(m, aware=False):
-    """m: {"kind":"list","elems":[...]} or {"kind":"rrule", freq, interval, count|until, start, cache}"""
+def build_member(m, aware=False, pool=None):
+    """m: {"kind":"list","elems":[...]} or {"kind":"rrule", freq, interval, count|until, start, cache};
+    an optional key "share": k makes every member with the same k of one case the SAME Python object
+    (a cached rrule then serves several member iterators from its own cache)"""
+    if pool is not None and m.get("share") is not None:
+        k = (m["share"], aware)
+        if k not in pool:
+            pool[k] = build_member(m, aware)
+        return pool[k]
     from dateutil import rrule as R
     if m["kind"] == "list":
         return [to_dt(z, aware) for z in m["elems"]]
+    if m["kind"] == "c01":
+        import warnings
+        import rr_common
+        with warnings.catch_warnings():
+            warnings.simplefilter("ignore")
+            freq, kw, _start = rr_common.build(m["case"])
+            return R.rrule(freq, cache=bool(m.get("cache")), **kw)
     kw = {"dtstart": to_dt(m["start"], aware), "interval": m["interval"], "cache": bool(m.get("cache"))}
     if "count" in m:
         kw["count"] = m["count"]
@@ -75,6 +96,72 @@ def member_instants(m):
     if "_inst" not in m:
         m["_inst"] = [to_z(d) for d in build_member(m)]
     return m["_inst"]
+
+
+def gen_c01_rule(r):
+    """a finite naive rule from C01's generator (harness/rr_common.py): BY-parts, wkst, until/count ...;
+    rejected when it raises, is not exhausted after 60 occurrences, or is empty too often"""
+    import itertools as IT
+    import rr_common
+    for _ in range(30):
+        case = rr_common.rand_case(r)
+        case["start"]["kind"] = "naive"
+        case["start"].pop("off", None)
+        case["start"]["us"] = 0
+        if case.get("until") is not None:
+            case["until"]["kind"] = "naive"
+            case["until"].pop("off", None)
+            case["until"].pop("same_tz", None)
+        if case.get("count") is None and case.get("until") is None:
+            case["count"] = r.choice([1, 3, 7, 12, 25])
+        m = {"kind": "c01", "case": case, "cache": r.random() < 0.3}
+        try:
+            it = iter(build_member(m))
+            inst = [to_z(d) for d in IT.islice(it, 61)]
+        except Exception:
+            continue
+        if len(inst) > 60 or (not inst and r.random() < 0.8) or inst != sorted(set(inst)):
+            continue
+        m["_inst"] = inst
+        return m
+    return gen_rule(r)
+
+
+def vary_c01(r, m):
+    """a rule that shares many occurrences with m: other interval / count / the same rule"""
+    import copy
+    if m["kind"] != "c01":
+        return dict(clean(m))
+    m2 = {"kind": "c01", "case": copy.deepcopy(m["case"]), "cache": r.random() < 0.3}
+    c = m2["case"]
+    x = r.random()
+    if x < 0.35:
+        c["interval"] = c["interval"] * r.choice([2, 3])
+    elif x < 0.6 and c.get("count"):
+        c["count"] = max(0, c["count"] // 2)
+    elif x < 0.75:
+        c["count"] = r.choice([1, 2, 5])
+    try:
+        import itertools as IT
+        inst = [to_z(d) for d in IT.islice(iter(build_member(m2)), 61)]
+        if len(inst) > 60:
+            return dict(clean(m))
+        m2["_inst"] = inst
+        return m2
+    except Exception:
+        return dict(clean(m))
+
+
+def gen_c01_set(r):
+    rules = [gen_c01_rule(r) for _ in range(r.choice([1, 1, 2, 2, 3, 4]))]
+    if r.random() < 0.3:
+        rules.append(vary_c01(r, r.choice(rules)))
+    exrules = [vary_c01(r, r.choice(rules)) if r.random() < 0.7 else gen_c01_rule(r)
+               for _ in range(r.choice([0, 1, 1, 2, 3]))]
+    pool = [z for m in rules + exrules for z in member_instants(m)]
+    rdates = [pick_instant(r, pool) for _ in range(r.choice([0, 1, 2, 4, 6]))]
+    exdates = [pick_instant(r, pool + rdates) for _ in range(r.choice([0, 1, 2, 4, 6]))]
+    return {"rr": rules, "rd": rdates, "exr": exrules, "exd": exdates, "cache": r.random() < 0.5}
 
 
 def clean(m):
@@ -118,11 +205,17 @@ def gen_set(r):
     rules = [gen_rule(r) for _ in range(n_rules())]
     pool = [z for m in rules for z in member_instants(m)]
     exrules = []
+    for i, m in enumerate(rules):
+        if r.random() < 0.25:
+            m["share"] = i
+    if rules and r.random() < 0.2:
+        rules.append(r.choice(rules))          # the same rule (possibly the same object) twice
     for _ in range(n_rules()):
         if rules and r.random() < 0.4:
             m = dict(clean(r.choice(rules)))
             if r.random() < 0.5:
                 m["interval"] = m["interval"] * r.choice([1, 2, 3])
+                m.pop("share", None)
             exrules.append(m)
         else:
             exrules.append(gen_rule(r))
@@ -170,12 +263,13 @@ def impl_set(s):
     from dateutil import rrule as R
     try:
         rs = R.rruleset(cache=bool(s.get("cache")))
+        pool = {}
         for m in s["rr"]:
-            rs.rrule(build_member(m))
+            rs.rrule(build_member(m, pool=pool))
         for z in s["rd"]:
             rs.rdate(to_dt(z))
         for m in s["exr"]:
-            rs.exrule(build_member(m))
+            rs.exrule(build_member(m, pool=pool))
         for z in s["exd"]:
             rs.exdate(to_dt(z))
         out = [to_z(d) for d in rs]
@@ -191,41 +285,54 @@ def impl_set(s):
 
 def gen_tagged(r):
     def tag():
-        return 1 if r.random() < 0.35 else 0
+        return r.choice([1, 1, 2, 3]) if r.random() < 0.35 else 0
     kind = r.randrange(5)
+
+    def other(t):
+        """a tag of the other kind (naive <-> aware), or another aware zone half of the time"""
+        if t == 0:
+            return r.choice([1, 2, 3])
+        return 0 if r.random() < 0.5 else r.choice([1, 2, 3])
     s = {"rr": [], "rd": [], "exr": [], "exd": [], "cache": r.random() < 0.5}
     n = lambda: r.choice([0, 0, 1, 1, 2, 3])
     base_tag = tag()
     for role in ("rr", "exr"):
         for _ in range(n()):
             elems = sorted(set(3600 * r.randrange(0, 8) for _ in range(r.randrange(0, 4))))
-            t = base_tag if (kind == 0 or r.random() < 0.7) else 1 - base_tag
-            s[role].append((t, {"kind": "list", "elems": elems}))
+            t = base_tag if (kind == 0 or r.random() < 0.7) else other(base_tag)
+            if r.random() < 0.4:
+                cnt = r.randrange(0, 5)
+                st0 = 3600 * r.randrange(0, 4)
+                s[role].append((t, {"kind": "rrule", "freq": "HOURLY", "interval": 1, "start": st0, "count": cnt,
+                                    "elems": [st0 + 3600 * k for k in range(cnt)]}))
+            else:
+                s[role].append((t, {"kind": "list", "elems": elems}))
     for role in ("rd", "exd"):
         for _ in range(n()):
-            t = base_tag if (kind == 0 or r.random() < 0.7) else 1 - base_tag
+            t = base_tag if (kind == 0 or r.random() < 0.7) else other(base_tag)
             s[role].append((t, 3600 * r.randrange(0, 8)))
     if kind == 1:   # inclusion all one kind, exclusion all the other
-        s["exr"] = [(1 - base_tag, m) for (_t, m) in s["exr"]]
-        s["exd"] = [(1 - base_tag, z) for (_t, z) in s["exd"]]
+        s["exr"] = [(other(base_tag), m) for (_t, m) in s["exr"]]
+        s["exd"] = [(other(base_tag), z) for (_t, z) in s["exd"]]
         s["rr"] = [(base_tag, m) for (_t, m) in s["rr"]]
         s["rd"] = [(base_tag, z) for (_t, z) in s["rd"]]
     return s
 
 
 def enc_tagged(s):
+    k = lambda t: min(int(t), 1)        # the model only knows naive / aware
     a = [len(s["rr"])]
     for t, m in s["rr"]:
-        a += [len(m["elems"]) + 1, t] + m["elems"]
+        a += [len(m["elems"]) + 1, k(t)] + m["elems"]
     a.append(2 * len(s["rd"]))
     for t, z in s["rd"]:
-        a += [t, z]
+        a += [k(t), z]
     a.append(len(s["exr"]))
     for t, m in s["exr"]:
-        a += [len(m["elems"]) + 1, t] + m["elems"]
+        a += [len(m["elems"]) + 1, k(t)] + m["elems"]
     a.append(2 * len(s["exd"]))
     for t, z in s["exd"]:
-        a += [t, z]
+        a += [k(t), z]
     return a
 
 
@@ -234,13 +341,13 @@ def impl_tagged(s):
     try:
         rs = R.rruleset(cache=bool(s.get("cache")))
         for t, m in s["rr"]:
-            rs.rrule(build_member(m, aware=bool(t)))
+            rs.rrule(build_member(m, aware=t))
         for t, z in s["rd"]:
-            rs.rdate(to_dt(z, bool(t)))
+            rs.rdate(to_dt(z, t))
         for t, m in s["exr"]:
-            rs.exrule(build_member(m, aware=bool(t)))
+            rs.exrule(build_member(m, aware=t))
         for t, z in s["exd"]:
-            rs.exdate(to_dt(z, bool(t)))
+            rs.exdate(to_dt(z, t))
         out = [to_z(d) for d in rs]
         ln = rs._len
         return [1, -1 if ln is None else ln] + out
@@ -316,13 +423,14 @@ def impl_history(cached, ops):
     rs = R.rruleset(cache=bool(cached))
     its = []
     out = []
+    pool = {}
     for op in ops:
         k = op[0]
         try:
             if k == "rrule":
-                rs.rrule(build_member(op[1])); out.append([0])
+                rs.rrule(build_member(op[1], pool=pool)); out.append([0])
             elif k == "exrule":
-                rs.exrule(build_member(op[1])); out.append([0])
+                rs.exrule(build_member(op[1], pool=pool)); out.append([0])
             elif k == "rdate":
                 rs.rdate(to_dt(op[1])); out.append([0])
             elif k == "exdate":
@@ -392,6 +500,9 @@ def gen_history(r, stale):
     members = {"rr": [], "rd": [], "exr": [], "exd": []}
     n_iters = n_stale = 0
     rule_pool = [gen_rule(r) for _ in range(r.randrange(1, 4))]
+    for i, m in enumerate(rule_pool):
+        if r.random() < 0.3:
+            m["share"] = i
     n_ops = r.randrange(3, 22)
     seen_iter = False
     want_stale = stale
@@ -479,6 +590,9 @@ def eval_history(o, h):
     n = len(ops)
     mf = split_obs(o.call(E_HIST_FIRST, a), n)
     ml = split_obs(o.call(E_HIST_LAST, a), n)
+    mpy = split_obs(o.call(E_HIST_PY, a), n)
+    if mpy != mf:
+        ml = mpy      # reported as a tie-breaking disagreement (three disciplines must agree)
     sp = split_obs(o.call(E_HIST_SPEC, a), n)
     im = impl_history(h["cached"], ops)
     return im, mf, ml, sp
@@ -547,6 +661,10 @@ def m_stale_iterator(payload):
     at = payload.get("first_wrong_op")
     if not isinstance(ops, list) or at is None:
         return False
+    if payload.get("model_agrees_with_impl") is not True:
+        # the faithful model of the unfixed code reproduces F-C10-stale exactly; a wrong observation
+        # that the model does not predict is something else
+        return False
     i = stale_use_index(ops)
     return i is not None and i < at
 
@@ -573,6 +691,39 @@ def small_scope_sets(tier):
                     yield {"rr": [{"kind": "list", "elems": s} for s in rr], "rd": rd,
                            "exr": [{"kind": "list", "elems": s} for s in exr], "exd": exd,
                            "cache": (len(rd) + len(exd)) % 2 == 0}
+
+
+SMALL_ALPHABET = [
+    ["rrule", {"kind": "list", "elems": [0, 1, 2, 3, 4, 5, 6, 7, 8, 9, 10, 11]}],   # crosses the batch of 10
+    ["rdate", 5], ["exdate", 3], ["exrule", {"kind": "list", "elems": [3, 20]}],
+    ["iter"], ["next", "last"], ["list"], ["count"], ["get", 10], ["in", 5],
+    ["iter1"],            # iter() followed by one next(): a started iterator
+    ["drain", "last"],    # 13 x next() on the most recent iterator: exhausts it
+]
+
+
+def small_scope_histories(first, length):
+    """every history over SMALL_ALPHABET of exactly `length` operations starting with symbol `first`;
+    ("next","last") advances the most recently created iterator (skipped when there is none)"""
+    for tail in itertools.product(range(len(SMALL_ALPHABET)), repeat=length - 1):
+        ops, n_it, ok = [], 0, True
+        for k in (first,) + tail:
+            op = SMALL_ALPHABET[k]
+            if op[0] == "iter":
+                n_it += 1
+                ops.append(["iter"])
+            elif op[0] == "iter1":
+                n_it += 1
+                ops += [["iter"], ["next", n_it - 1]]
+            elif op[0] in ("next", "drain"):
+                if n_it == 0:
+                    ok = False
+                    break
+                ops += [["next", n_it - 1]] * (1 if op[0] == "next" else 13)
+            else:
+                ops.append(op)
+        if ok:
+            yield ops
 
 
 def nontrivial_set(s, spec):
@@ -610,13 +761,24 @@ def worker_(job):
     def bump(key, k=1):
         st["hist"][key] = st["hist"].get(key, 0) + k
 
-    if kind in ("sets", "small"):
-        it = small_scope_sets(tier) if kind == "small" else (gen_set(r) for _ in range(n))
+    if kind in ("sets", "small", "c01sets"):
+        it = (small_scope_sets(tier) if kind == "small" else
+              (gen_set(r) for _ in range(n)) if kind == "sets" else (gen_c01_set(r) for _ in range(n)))
         for s in it:
             a = enc_set(s)
             im = impl_set(s)
             mf, ml, sp = o.call(E_MODEL_FIRST, a), o.call(E_MODEL_LAST, a), o.call(E_SPEC, a)
+            lit = o.call(E_LITERAL, a)
+            mpy = o.call(E_MODEL_PY, a)
             st["evaluations"] += 1
+            if mpy != im:
+                st["model_diff"] += 1
+                viol.append(({"kind": "correspondence: model over the heapq.py algorithms (RSetHeapq.v) differs from the implementation",
+                              "input": set_json(s), "impl": im, "model_heapq": mpy}, False))
+            if lit != im:
+                st["model_diff"] += 1
+                viol.append(({"kind": "correspondence: literal model (object identity, RSetLit.v) differs from the implementation",
+                              "input": set_json(s), "impl": im, "literal_model": lit}, False))
             bump("%s: rules=%d" % (kind, len(s["rr"])))
             bump("%s: exrules=%d" % (kind, len(s["exr"])))
             bump("%s: cache=%s" % (kind, bool(s.get("cache"))))
@@ -658,6 +820,12 @@ def worker_(job):
         for _ in range(n):
             h = gen_history(r, stale=(kind == "stale"))
             check_history(o, h, kind, st, viol, samples, bump)
+    elif kind == "smallhist":
+        first = int(tag)
+        for length in range(1, n + 1):
+            for ops in small_scope_histories(first, length):
+                for cached in (False, True):
+                    check_history(o, {"cached": cached, "ops": ops}, kind, st, viol, samples, bump, shrink=False)
     o.close()
     st["nontrivial_keys"] = sorted(st["nontrivial_keys"])
     return {"stats": st, "violations": viol, "samples": samples}
@@ -687,7 +855,7 @@ def check_history(o, h, kind, st, viol, samples, bump, shrink=True):
     d = first_spec_diff(im, sp)
     if d is not None:
         st["spec_diff"] += 1
-        pre = {"input": hist_json(h), "first_wrong_op": d}
+        pre = {"input": hist_json(h), "first_wrong_op": d, "model_agrees_with_impl": im == mf}
         hh = shrink_history(o, h) if (shrink and not m_stale_iterator(pre)) else h
         im2, mf2, _ml2, sp2 = eval_history(o, hh)
         d2 = first_spec_diff(im2, sp2)
@@ -737,7 +905,8 @@ def measure_anchor_coverage(fn):
                      "statements_in_ranges": len(stmts), "missing_statements_in_ranges": len(missing),
                      "missing_lines": missing[:40],
                      "note": "1343-1344 are the dead else-branch of _genitem.__next__ (remove + heapify), "
-                             "unreachable from _iter; 120 releases a lock left held (never in one thread); "
+                             "unreachable from _iter; 1352/1355 are _genitem.__gt__/__eq__, never called by _iter or heapq; "
+                             "120 releases a lock left held (never in one thread); 91 runs at import; "
                              "definitions (executed at import) are not counted"}
     except Exception as ex:
         return res, {"available": False, "error": repr(ex)}
@@ -795,6 +964,14 @@ def replay(path):
         print("model     ", o.call(E_MODEL_FIRST, a))
         print("model/last", o.call(E_MODEL_LAST, a))
         print("spec      ", o.call(E_SPEC, a))
+    elif isinstance(inp, dict) and "rr" in inp and "rd" in inp:
+        # naive/aware case: rr/exr = [[tag, instants]...], rd/exd = [[tag, instant]...]
+        s = {"rr": [(t, {"kind": "list", "elems": e}) for t, e in inp["rr"]], "rd": [tuple(x) for x in inp["rd"]],
+             "exr": [(t, {"kind": "list", "elems": e}) for t, e in inp["exr"]], "exd": [tuple(x) for x in inp["exd"]],
+             "cache": inp.get("cache")}
+        print("input     ", json.dumps(inp))
+        print("impl      ", impl_tagged(s), " ([2] = TypeError)")
+        print("model     ", o.call(E_TAGGED, enc_tagged(s)))
     else:
         print("replay names a broken obligation or a non-replayable input:", json.dumps(data, indent=1)[:3000])
     o.close()
@@ -836,12 +1013,13 @@ def main():
         for k, v in st["hist"].items():
             total["hist"][k] = total["hist"].get(k, 0) + v
         if tier == "quick":
-            plan = {"sets": (4, 700), "tagged": (1, 1500), "hist": (4, 750), "stale": (2, 300)}
+            plan = {"sets": (4, 700), "c01sets": (4, 150), "tagged": (1, 1500), "hist": (4, 750), "stale": (2, 300)}
             procs = 4
         else:
-            plan = {"sets": (16, 6000), "tagged": (2, 10000), "hist": (32, 6250), "stale": (8, 2500)}
+            plan = {"sets": (16, 15000), "c01sets": (16, 2500), "tagged": (4, 10000), "hist": (32, 15000), "stale": (8, 6000)}
             procs = min(16, os.cpu_count() or 4)
         jobs = [("small", "0", 0, tier)]
+        jobs += [("smallhist", str(k), 4 if tier == "quick" else 5, tier) for k in range(len(SMALL_ALPHABET))]
         for kind, (shards, n) in plan.items():
             jobs += [(kind, str(i), n, tier) for i in range(shards)]
         cov_jobs = [("sets", "cov", 60, tier), ("hist", "cov", 120, tier), ("stale", "cov", 60, tier),
@@ -862,6 +1040,7 @@ def main():
             viols += res["violations"]
             if len(samples) < 10:
                 samples += res["samples"][:2]
+    viols.sort(key=lambda v: not v[1])      # concrete failing inputs first
     for payload, concrete in viols:
         verdict.violation(payload, concrete=concrete)
 
@@ -873,12 +1052,29 @@ def main():
         verdict.violation({"kind": "oracle could not be built", "input": None,
                            "log_tail": (build_err.log if build_err else "")[-3000:]}, concrete=False)
 
+    coqchk = None
+    if tier == "thorough" and props["ok"]:
+        # independent re-check of the compiled library by coqchk (kernel-only checker)
+        try:
+            crc, cout = C.sh(["timeout", "900", "coqchk", "-silent", "-o", "-R", C.COQ, "V", "V.props.C10"],
+                             cwd=C.COQ, timeout=1000)
+            m = [l.strip() for l in cout.splitlines() if l.strip().startswith("* ")]
+            coqchk = {"rc": crc, "summary": m}
+            if crc != 0:
+                verdict.violation({"kind": "coqchk rejects the compiled proofs of props/C10.v", "input": None,
+                                   "log_tail": cout[-2000:]}, concrete=False)
+        except Exception as ex:
+            coqchk = {"rc": None, "error": repr(ex)}
     rc = verdict.finish()
     partial = [t for t in props["theorems"] if t.endswith("_partial")]
     cov = {
         "evaluations": total["evaluations"],
         "distinct_nontrivial": len(nontriv),
         "rule": "streams: regression corpus; small-scope exhaustive sets over instants {0,1,2} (plain-list members); "
+                "small-scope exhaustive histories (every sequence of <= 4 (quick) / 5 (thorough) operations over a "
+                "12-symbol alphabet, cache on and off); "
+                "sets whose rules come from C01's generator harness/rr_common.rand_case (BY-parts, wkst, until/count; made "
+                "naive and finite) with varied copies as co-members and exclusions; "
                 "random sets of 0-4 real rrule objects (HOURLY/DAILY/MINUTELY/WEEKLY/MONTHLY/SECONDLY, varied "
                 "interval/count/until/byhour on a coarse grid so occurrences coincide) and 0-7 dates per role, members "
                 "reused between inclusion and exclusion; naive/aware mixtures; random histories of "
@@ -888,22 +1084,33 @@ def main():
                 "the encoded input.",
         "exhaustive": False,
         "small_scope_exhaustive_sets": per_stream.get("small", 0),
+        "small_scope_exhaustive_histories": per_stream.get("smallhist", 0),
+        "small_scope_history_alphabet": [json.dumps(x) for x in SMALL_ALPHABET],
         "samples": samples[:10],
         "input_distribution": dict(sorted(total["hist"].items())),
         "evaluations_per_stream": per_stream,
         "model_vs_impl_disagreements": total["model_diff"],
         "spec_vs_impl_disagreements": total["spec_diff"],
         "tie_breaking_disagreements": total["tiebreak_diff"],
-        "traces_validated_against_impl": per_stream.get("hist", 0) + per_stream.get("stale", 0),
+        "traces_validated_against_impl": per_stream.get("hist", 0) + per_stream.get("stale", 0) + per_stream.get("smallhist", 0),
         "partial_theorems": partial,
         "differential_only": ["naive/aware TypeError class (tag_error of RSetModel.v is compared with the code, "
                               "no theorem)", "lock handling of _iter_cached (not modelled; single-threaded histories)"],
         "known_findings_hit": verdict.known_hits,
+        "guarded_theorems": {"C10_rset_history": "fresh_history ops = true (no next() on an iterator obtained "
+                                                 "before a later mutator); complement = finding F-C10-stale",
+                             "C10_rset_history_heapq": "same guard",
+                             "C10_rset_iter_correct and all generator theorems": "members non-decreasing (Forall nondec); "
+                                                 "heap discipline satisfies heap_contract (proved for heapq.py's algorithms)",
+                             "C10_tagged_ok": "tag_error = false"},
+        "coqchk": coqchk if coqchk is not None else "thorough tier only",
+        "refuted_theorems": ["C10_history_unguarded_refuted (witness replayed on the implementation = F-C10-stale)"],
         "anchor_coverage_of_one_shard": cov_summary if have_oracle else {"available": False},
     }
     C.write_evidence(CID, tier, t0, props, cov,
-                     ["heapq satisfies the contract heap_contract of RSetThm.v (element 0 minimal, permutation) -- "
-                      "discharged for the two extracted instances, trusted for CPython's heapq",
+                     ["CPython's _heapq C accelerator implements the algorithms of Lib/heapq.py, which RSetHeapq.v models and "
+                      "RSetHeapqThm.v proves to satisfy heap_contract (also proved for the two selection heaps); "
+                      "all three disciplines are extracted and compared with the implementation",
                       "a member (rrule / date list) is the finite non-decreasing list of instants it produces",
                       "identity tests (`is`) in _genitem.__next__/_iter resolved statically as explained in RSetModel.v"],
                      len(verdict.violations))
